@@ -236,6 +236,8 @@ def crawl_one(w, acc, item, url, now, policy, label, oracle, manifest_hook=None)
     acc.count('manifests')
     rec_base = {'stream': item['stream'], 'template': item['template'], 'opts': opts, 'now': crawl.iso(now),
                 'url': url, 'ref': item.get('ref')}
+    if item.get('sdef_record'):
+        rec_base['sdef'] = item['sdef_record']
     if r.status != 200:
         acc.outcome(('manifest', r.status))
         acc.count('manifest_not_200')
